@@ -40,6 +40,7 @@ fn main() {
     .pbt(lru::Lru)
     .pbt(wl::WlSeq)
     .pbt(wl::WlThreads)
-    .pbt(wcq::Wcq);
+    .pbt(wcq::Wcq)
+    .pbt(wcq::WcqHandoff);
     vcore::main_with(vec![check], &[("probe-link-wakeup", wl::probe_link_wakeup)]);
 }
